@@ -100,6 +100,7 @@ var flowRules = map[string]flowFn{
 	"kind-of-operator":  func(f *yyflow.Lang, sh map[string]*yyflow.Shape) *report.RuleResult { return f.KindOfOperator() },
 	"grammar-ignores-trivia": func(f *yyflow.Lang, sh map[string]*yyflow.Shape) *report.RuleResult { return f.IgnoresTrivia() },
 	"report-positions":  func(f *yyflow.Lang, sh map[string]*yyflow.Shape) *report.RuleResult { return f.ReportPositions(sh) },
+	"assert-safe":       func(f *yyflow.Lang, sh map[string]*yyflow.Shape) *report.RuleResult { return f.AssertSafe(sh) },
 }
 
 // flows runs the named yyflow rules on their fixtures and on /repo.
@@ -169,7 +170,7 @@ func init() {
 		Level: "other", Engine: "yyflow",
 		Run: func(c *Ctx) {
 			defer c.cleanup()
-			c.flows_("linear", "order", "pos-span", "leaf-value", "nil-in-list", "error-yields-nil", "no-carrier-escape")
+			c.flows_("linear", "order", "pos-span", "leaf-value", "nil-in-list", "error-yields-nil", "no-carrier-escape", "assert-safe")
 			c.flowRule("kind-of-operator", flowRules["kind-of-operator"])
 			c.siblings()
 			if os.Getenv("VERIF_DUMP") != "" {
@@ -297,14 +298,15 @@ func init() {
 	{
 		p := properties["C06"]
 		run := p.Run
-		p.Explanation += " report-positions (yyflow): every semantic error delivered by a grammar action has a constant non-empty message and the Position of a token or of a node whose Position every producing action sets; tables-sync/skeleton-sync: the driver is the stock goyacc driver, which returns non-zero only after calling Error."
+		p.Explanation += " report-positions (yyflow): every semantic error delivered by a grammar action has a constant non-empty message and the Position of a token or of a node whose Position every producing action sets; tables-sync/skeleton-sync: the driver is the stock goyacc driver, which returns non-zero only after calling Error; assert-safe: no action can panic in a type assertion on a nil or differently typed right-hand-side value before it reports (a panic is neither a report nor a tree)."
 		p.TrustedBase = append(p.TrustedBase, yyTrusted[:2]...)
-		p.Floors = append(p.Floors, report.Floor{Rule: "report-positions", What: "reports", Min: 4}, report.Floor{Rule: "tables-sync", What: "skeleton-funcs", Min: 16})
+		p.Floors = append(p.Floors, report.Floor{Rule: "report-positions", What: "reports", Min: 4}, report.Floor{Rule: "tables-sync", What: "skeleton-funcs", Min: 16}, report.Floor{Rule: "assert-safe", What: "assertions", Min: 230})
 		p.Run = func(c *Ctx) {
 			run(c)
 			defer c.cleanup()
 			c.grammarRule("tables-sync", syncRule)
 			c.flowRule("report-positions", flowRules["report-positions"])
+			c.flows_("assert-safe")
 		}
 	}
 	// C03: add the action-level clauses
